@@ -1,5 +1,6 @@
 """Generators of source-text cases (front end: C01, C02, C07)."""
-import itertools, struct
+import itertools, struct, sys
+sys.setrecursionlimit(max(sys.getrecursionlimit(), 20000))   # left-nested chains of a thousand operands are rendered recursively
 from decimal import Decimal
 from vlib.core import bits
 
